@@ -6,11 +6,11 @@ from .prune import is_call
 
 LEVEL = 'other'
 RULES = {
-    'C15.R1': 'rows are only dropped: the rows handed to from_row_iter come from zip(rows of self.mat, self.bias) through enumerate/filter/filter_map/map(projection) only; duplicate/redundant removal return remove_rows of self',
+    'C15.R1': 'rows are only dropped: the rows handed to from_row_iter come from zip(rows of self.mat, self.bias) through enumerate/filter/filter_map/map(projection) only; duplicate/redundant removal return remove_rows of self; from_row_iter copies item i to row i / bias i element-wise (no memory-order access)',
     'C15.R2': 'normalisation divides a row and its bias by the same positive norm sqrt(sum x^2), used only under norm > eps',
     'C15.R3': 'guard directions: all-zero row dropped only under bias >= 0 (else canonical empty); duplicate only if rows AND biases compare equal; redundant only in the Optimal arm under a_i·p <= b_i + eps for objective -a_i over the other rows; Unbounded keeps, Error -> Err, Infeasible -> empty',
 }
-FLOORS = {'C15.R1': 5, 'C15.R2': 1, 'C15.R3': 7}
+FLOORS = {'C15.R1': 7, 'C15.R2': 1, 'C15.R3': 7}
 EXPLANATION = 'Provenance and guard rules: a clean-up can only drop rows of the input, and drops one only under the stated test.'
 DOES_NOT_DECIDE = 'set equality (whether a dropped row was really implied: the LP answer and relative_eq\'s tolerance), minimality of the result'
 PASS_THROUGH = {'Iterator::enumerate', 'Iterator::filter', 'Iterator::filter_map', 'Iterator::map', 'Itertools::collect_vec', 'Iterator::collect', 'Iterator::zip', 'Iterator::rev'}
@@ -52,9 +52,115 @@ def is_projection(F, kind, cexpr):
     return all(proj(r) for r in rets)
 
 
+LAYOUT_DEPENDENT = ('as_slice_memory_order', 'as_slice_memory_order_mut', 'into_raw_vec', 'into_raw_vec_and_offset', 'as_ptr', 'as_mut_ptr',
+                    'from_shape_vec_unchecked', 'from_shape_ptr', 'raw_view', 'raw_view_mut', 'assume_init')
+
+
+def from_row_iter_copy(ctx, F, rule='C15.R1'):
+    """`from_row_iter(indim, outdim, rows)` is what every row-dropping clean-up ends in: the i-th item (x, y) of `rows` must become row i of
+    the matrix (copied element by element in logical order: `assign`) and element i of the bias, for every i < outdim."""
+    from ..effects import assigns
+    b = ctx.body(rule, 'AffFuncBase::from_row_iter')
+    if b is None:
+        return
+    site = 'AffFuncBase::from_row_iter#copy'
+    R = Resolver(b)
+    rets = [e for _, e in R.return_expr()]
+    if len(rets) != 1 or not is_call(rets[0], 'AffFuncBase::from_mats'):
+        ctx.undecided(rule, site, 'the result is not one from_mats(mat, bias)', b.span)
+        return
+    M, B = rets[0][2]
+    problems = []
+    # no layout-dependent access to the contents of a row anywhere below from_row_iter
+    for bd in [b] + list(b.closure_bodies()):
+        for bb, t in bd.calls():
+            if Callee(t['func']).name in LAYOUT_DEPENDENT:
+                problems.append('a row is read through %s: memory order differs from logical order for strided or reversed views' % Callee(t['func']).name)
+    if problems:
+        for p_ in sorted(set(problems)):
+            ctx.bad(rule, site, p_, b.span)
+        return
+    shape_ok = is_call(M, 'ArrayBase::zeros') and s(M[2][0]) == ('agg', 'tuple', (('param', 'outdim'), ('param', 'indim'))) and \
+        is_call(B, 'ArrayBase::zeros') and s(B[2][0]) == ('param', 'outdim')
+    if not shape_ok:
+        ctx.undecided(rule, site, 'matrix / bias are not zeros((outdim, indim)) / zeros(outdim) filled in place (found %s, %s)' % (fmt(s(M))[:80], fmt(s(B))[:60]), b.span)
+        return
+    # form A: Zip::from(mat.axis_iter_mut(Axis(0))).and(&mut bias).for_each(|row, value| { (x, y) = iter.next()..; row.assign(&x); *value = *y })
+    fe = [(bb, R.call_args(bb)) for bb, t in b.calls_to('Zip::for_each')]
+    done = False
+    if len(fe) == 1 and fe[0][1][1][0] == 'closure':
+        z = fe[0][1][0]
+        zip_ok = is_call(z, 'Zip::and') and is_call(z[2][0], 'Zip::from') and is_call(z[2][0][2][0], 'ArrayBase::axis_iter_mut') and \
+            s(z[2][0][2][0][2][0]) == s(M) and s(z[2][0][2][0][2][1])[2] == (('const', 0),) and s(z[2][1]) == s(B)
+        cb = F.closure(fe[0][1][1][1])
+        if cb is not None and zip_ok:
+            Rc = Resolver(cb)
+            names = cb.arg_names()
+            row_p, val_p = ('param', names[1]), ('param', names[2])
+            caps = fe[0][1][1][2]
+            idx = cb.upvar_index()
+            src = None
+            nx = [(bb, Rc.call_args(bb)) for bb, t in cb.calls_to('Iterator::next')]
+            if len(nx) == 1 and nx[0][1][0][0] == 'upvar':
+                i = idx.get(nx[0][1][0][1])
+                src = caps[i] if i is not None and i < len(caps) else None
+            src_ok = src is not None and s(src) == ('param', 'rows')
+            asg = [(bb, Rc.call_args(bb), literals(cb, Rc, bb)) for bb, t in cb.calls_to('ArrayBase::assign')]
+
+            def comp(e, k):
+                # component k of the (unwrapped) item of the captured iterator
+                return e[0] == 'field' and e[2] == k and any(is_call(x, 'Iterator::next') for x in walk(e[1])) and not any(isinstance(x, tuple) and x[:1] == ('field',) and x[2] in ('0', '1') and x is not e for x in walk(e[1]))
+            asg_ok = len(asg) == 1 and asg[0][1][0] == row_p and comp(asg[0][1][1], '0') and not asg[0][2]
+            ws = [w for w in assigns(cb, Rc)]
+            val_ok = len(ws) == 1 and ws[0].target == val_p and comp(ws[0].value, '1') and not literals(cb, Rc, ws[0].bb)
+            if not src_ok:
+                problems.append('the rows copied are not the items of the `rows` argument in order')
+            if not asg_ok:
+                problems.append('row i of the matrix is not assigned the coefficient vector of the i-th item, unconditionally')
+            if not val_ok:
+                problems.append('element i of the bias is not the bias of the i-th item, unconditionally')
+            done = True
+    if not done:
+        # form B: a loop over the enumerated items writing row i and bias[i]
+        asg = [(bb, R.call_args(bb), literals(b, R, bb)) for bb, t in b.calls_to('ArrayBase::assign')]
+        ws = [w for w in assigns(b, R) if is_call(w.target, 'IndexMut::index_mut') and s(w.target[2][0]) == s(B)]
+        if len(asg) == 1 and len(ws) == 1:
+            _, (tgt, srcv), lits = asg[0]
+            item = [x for x in walk(srcv) if is_call(x, 'Iterator::next')]
+            en = item[0][2][0] if item else None
+            if en is not None and is_call(en, 'Iterator::take') and s(en[2][1]) == ('param', 'outdim'):
+                en = en[2][0]   # at most outdim items are consumed, as the zipped form does
+            ok_enum = en is not None and is_call(en, 'enumerate', 'Iterator::enumerate') and s(en[2][0]) == ('param', 'rows')
+            it = item[0] if item else None
+            i_expr = ('field', it, '0')
+            tgt_ok = is_call(tgt, 'ArrayBase::row_mut', 'ArrayBase::index_axis_mut') and s(tgt[2][0]) == s(M) and s(tgt[2][-1]) == s(i_expr) and \
+                (not is_call(tgt, 'ArrayBase::index_axis_mut') or s(tgt[2][1])[2] == (('const', 0),))
+            src_ok = s(srcv) == s(('field', ('field', it, '1'), '0'))
+            only_loop = all(l[0] == 'is' and is_call(l[1], 'Iterator::next') for l in lits)
+            w = ws[0]
+            bidx = w.target[2][1]
+            b_ok = s(bidx) == s(i_expr) and s(w.value) == s(('field', ('field', it, '1'), '1')) and \
+                all(l[0] == 'is' and is_call(l[1], 'Iterator::next') for l in literals(b, R, w.bb))
+            if not (ok_enum and tgt_ok and src_ok and only_loop):
+                problems.append('row i of the matrix is not assigned the coefficient vector of the i-th item of `rows`, unconditionally')
+            if not b_ok:
+                problems.append('element i of the bias is not the bias of the i-th item, unconditionally')
+            done = True
+    if not done:
+        ctx.undecided(rule, site, 'neither the Zip::for_each form nor an enumerate loop with row_mut(i).assign(..) / bias[i] = ..', b.span)
+        return
+    if problems:
+        for p_ in sorted(set(problems)):
+            ctx.bad(rule, site, p_, b.span)
+    else:
+        ctx.ok(rule, site, 'item i of `rows` -> row i (element-wise `assign`, layout independent) and bias i, for every row, nothing else written', b.span)
+
+
 def run(ctx):
+    prune.check_layout_independence(ctx, 'C15.R1')
     F = ctx.facts
     SELF = ('param', 'self')
+    from_row_iter_copy(ctx, F)
     for name in ('remove_rows', 'remove_zero_rows', 'remove_tautologies'):
         b = ctx.body('C15.R1', 'AffFuncBase::' + name)
         if b is None:
@@ -199,6 +305,12 @@ def normalize(ctx, F):
     if len(sq) == 1:
         comps = [x[2] for x in walk(sq[0][0]) if isinstance(x, tuple) and x[:1] == ('field',) and is_call(x[1], 'Iterator::next')]
         norm_ok = comps == ['0']   # the matrix-row component of the (row, bias) pair, nothing else
+        if not norm_ok and sq[0][0][0] == 'var':
+            # the sum accumulated in a loop (hand-written or a desugared `fold`, possibly in an inlined helper): every definition of the
+            # accumulator mentions, of the zipped pair, the matrix row only
+            defs_ = [d[2] for d in R.var_defs(sq[0][0][1])]
+            comps = sorted(set(x[2] for d in defs_ for x in walk(d) if isinstance(x, tuple) and x[:1] == ('field',) and is_call(x[1], 'Iterator::next') and is_call(x[1][2][0], 'zip')))
+            norm_ok = comps == ['0']
     # both divisions use the same norm and are guarded by norm > eps: `view.map_inplace(|x| *x /= norm)` or, for a single entry, `*entry /= norm`
     divs = []
     for bb, t in b.calls():
